@@ -145,7 +145,12 @@ func httpDoAccept(store *server.Store, dsm *server.DsManager, method, path strin
 // POST /datasets/<ds>/entities : the handler cuts the stream into StoreEntities batches of 10
 func hBatch(store *server.Store, dsm *server.DsManager, op server.VerifOp, tokens map[string]int64) (oo server.VerifOpObs) {
 	oo.Lens = server.VerifLens(store, op.Ents)
-	code, body := httpDo(store, dsm, "POST", "/datasets/"+op.Ds+"/entities", server.VerifPayload(op.Ents))
+	payload := server.VerifPayload(op.Ents)
+	if op.Reject {
+		// an entity without an id at the very end: the last (partial) batch must be refused and the request must not answer 200
+		payload = append(payload[:len(payload)-1], []byte(`,{"props":{},"refs":{}}]`)...)
+	}
+	code, body := httpDo(store, dsm, "POST", "/datasets/"+op.Ds+"/entities", payload)
 	if code != 200 {
 		oo.Err = fmt.Sprintf("status %d: %s", code, string(body))
 	}
@@ -186,6 +191,9 @@ func hChanges(store *server.Store, dsm *server.DsManager, op server.VerifOp, tok
 	if since > 0 {
 		q.Set("since", web.VerifEncodeSince(since))
 	}
+	if op.SinceStr != "" {
+		q.Set("since", base64.StdEncoding.EncodeToString([]byte(op.SinceStr)))
+	}
 	if op.Limit != 0 {
 		q.Set("limit", strconv.Itoa(op.Limit))
 	}
@@ -221,6 +229,9 @@ func hChanges(store *server.Store, dsm *server.DsManager, op server.VerifOp, tok
 		oo.Next = 0 // the reverse reader omits the continuation when it reached position 0
 	} else {
 		oo.Next = web.VerifDecodeSince(tok)
+	}
+	if op.SinceStr != "" {
+		oo.NextStr = web.VerifDecodeSinceStr(tok)
 	}
 	if op.Reader != "" {
 		tokens[key] = oo.Next
@@ -463,7 +474,25 @@ func jsTxn(store *server.Store, dsm *server.DsManager, op server.VerifOp, tokens
 	return
 }
 
+// mkproxy: a proxy dataset whose remote hub is this very hub, served over a real loopback listener by the real handlers:
+// every read of the proxy must answer exactly like the same read of the dataset it points at
+var proxySrv *httptest.Server
+
+func mkProxy(store *server.Store, dsm *server.DsManager, op server.VerifOp, tokens map[string]int64) (oo server.VerifOpObs) {
+	if proxySrv != nil {
+		proxySrv.Close()
+	}
+	proxySrv = httptest.NewServer(web.VerifStoreEcho(store, dsm))
+	_, err := dsm.CreateDataset(op.Ds, &server.CreateDatasetConfig{
+		ProxyDatasetConfig: &server.ProxyDatasetConfig{RemoteURL: proxySrv.URL + "/datasets/" + op.ID}})
+	if err != nil {
+		oo.Err = err.Error()
+	}
+	return
+}
+
 func init() {
+	server.VerifExtOps["mkproxy"] = mkProxy
 	server.VerifExtOps["hquery"] = hQuery
 	server.VerifExtOps["htxn"] = hTxn
 	server.VerifExtOps["jschanges"] = jsChanges
